@@ -160,6 +160,12 @@ def run_case(case):
     incompatible = [p for p, (_l, act, _s) in leaves
                     if any(ch not in access for ch in ACTIONS[act][0] if ch in "rw")]
     fields = to_fields(tree)
+    if rng.random() < 0.3 and case["top_kind"] != "annot":
+        try:        # the same description objects used for another register first (Field.create() must give fresh actions)
+            from amaranth.hdl import Fragment
+            Fragment.get(Top({"twin": csr.Register(fields, access="rw")}), None)
+        except Exception:
+            pass
     summary = {"access": access, "top_kind": case["top_kind"], "leaves": [(list(p), l[1], l[2]) for p, l in leaves][:24],
                "stim": case["stim_seed"]}
     reinst = None
